@@ -133,6 +133,23 @@ namespace sim
             p.fixed_modes = true;
          }
       }
+      else if( check == "C13" && sub == 7 ) {
+         // state scopes whose state type is default constructible only (fixed grammar, stock memory inputs)
+         j.mode = MODE_IO;
+         j.set = static_cast< SetId >( r.chance( 1, 2 ) ? IO_LAZY : IO_STRING );
+         Case& c = j.c;
+         c.prog = IO_PROG_STATES;
+         c.vetoseed = r.next();
+         c.input = gen_io_input( mix64( s, 0x696f ), IO_PROG_STATES, int( j.set ) );
+         c.maximum = static_cast< std::uint32_t >( c.input.size() ) + 64;
+         if( r.chance( 1, 2 ) ) {
+            const std::uint8_t sites[] = { SITE_ACTION, SITE_SUCCESS_HOOK, SITE_FAILURE_HOOK, SITE_STATE_SUCCESS };
+            const std::uint8_t cl[] = { EXC_FAULT, EXC_STD, EXC_PE, EXC_INT };
+            c.faults.push_back( FaultOp{ sites[ r.below( 4 ) ], cl[ r.below( 4 ) ], static_cast< std::uint16_t >( r.range( 1, 8 ) ) } );
+         }
+         j.with_faults = !c.faults.empty();
+         return j;
+      }
       else if( check == "C13" ) {
          p.focus = FOCUS_STATE;
          if( sub >= 2 ) {
